@@ -36,7 +36,7 @@ MANIFEST = {
     'technique': 'explicit-state BFS over edit histories (add / overwrite / rejected add / remove by rule, name, prefix / hook '
                  'add / hook remove) on the real router, deduplicated by the concrete object graph; each state compared with a '
                  'survivor model and with routers freshly built from the survivors',
-    'text': 'All histories up to depth 3 (quick) / 5 (thorough) over a menu of 42 operations are replayed on fresh '
+    'text': 'All histories up to depth 3 (quick) / 5 (thorough) over a menu of 45 operations are replayed on fresh '
             'applications; every distinct concrete router state is probed on all paths and methods and compared with the '
             'survivor model, with freshly built routers (two insertion orders) and through Ombott.__call__ (hook invocations). A sub-universe is searched one level deeper on a router that is in use (all probe paths looked up after every edit).',
     'note': 'Bounds: 10 rules, 4 hook rules, 3 names, depth as stated. Trusted: the survivor model here, vf/refrouter.py.',
@@ -58,13 +58,15 @@ HOOKS = {'/a': (L('a'),), '/a/b': (L('a/b'),), '/q': (L('q'),), '/a/{y}': (L('a/
 NAMES = ['n1', 'n2', 'n3']
 PROBES = ['/i/x/q', '/i/7/q', '/a', '/a/b', '/a/b/c', '/ab', '/a/1', '/a/zz', '/a/1/c', '/a/zz/c', '/i/7/p', '/i/7-v', '/i/7', '/i/x/p', '/q/z', '/', '/q', '/a/', '/a/b/', '/a/c',
           '/a/b/d', '/abc', '/a/b/c/d', '/a//c', '/q/zz', '/a/1/d', '/b', '/a/-5', '/a/-5/c', '/q/z/', '/a/b/c/']
-METHODS = ['GET', 'POST', 'PUT']
+METHODS = ['GET', 'POST', 'PUT', 'DELETE']
 _canon = Canon(tb=False)
 
 
 def menu():
     m = [('add', r) for r in U]
     m += [('addn', '/a/b', 'n1'), ('addn', '/a/{x}', 'n2'), ('addn', '/q/z', 'n1'), ('addn', '/a/b', 'n3')]   # n3 registers PUT: an alias
+    # the same name repeated for another verb of the same rule; a name moved to another rule by an overwriting registration
+    m += [('addnp', '/a/b', 'n1'), ('addno', '/q/z', 'n1'), ('addno', '/a/b', 'n2')]
     m += [('addo', '/a/b'), ('addo', '/a/{x}')]
     # one registration for several methods: rejected as a whole when any of them is taken (nothing may stay behind)
     m += [('addm', '/a/b', 'PG'), ('addm', '/a/{x}', 'GP'), ('addm', '/q/z', 'PO')]
@@ -112,6 +114,10 @@ def methods_of(op):
     k = op[0]
     if k == 'addn':
         return ['PUT'] if op[2] == 'n3' else ['POST']
+    if k == 'addnp':
+        return ['DELETE']
+    if k == 'addno':
+        return ['POST']
     if k == 'addm':
         return MULTI[op[2]]
     return ['GET']
@@ -167,20 +173,20 @@ class Model:
     def expect(self, op):
         """-> 'accept' | 'reject' | 'either' (without changing the model)"""
         k = op[0]
-        if k in ('add', 'addn', 'addo', 'addm'):
+        if k in ('add', 'addn', 'addo', 'addm', 'addnp', 'addno'):
             ast = self.U[op[1]]
             pat = rr.pattern(ast)
             methods = methods_of(op)
             if pat in self.routes:
                 if fk_of(self.routes[pat]['ast']) != fk_of(ast):
                     return 'reject'
-                if any(m in self.routes[pat]['methods'] for m in methods) and k != 'addo':
+                if any(m in self.routes[pat]['methods'] for m in methods) and k not in ('addo', 'addno'):
                     return 'reject'
             else:
                 c = self._conflict(ast)
                 if c:
                     return c
-            if k == 'addn' and op[2] in self.names and self.names[op[2]] != pat:
+            if k in ('addn', 'addnp') and op[2] in self.names and self.names[op[2]] != pat:
                 return 'reject'
             return 'accept'
         if k == 'rmn':
@@ -196,14 +202,14 @@ class Model:
         exp = self.expect(op)
         if exp == 'either':
             exp = 'reject' if raised else 'accept'
-        if k in ('add', 'addn', 'addo', 'addm'):
+        if k in ('add', 'addn', 'addo', 'addm', 'addnp', 'addno'):
             ast = self.U[op[1]]
             pat = rr.pattern(ast)
             methods = methods_of(op)
-            hid = {'add': 'G:', 'addn': 'P:', 'addo': 'O:', 'addm': 'M:'}[k] + op[1]
+            hid = {'add': 'G:', 'addn': 'P:', 'addo': 'O:', 'addm': 'M:', 'addnp': 'Q:', 'addno': 'R:'}[k] + op[1]
             if exp == 'reject':
                 # the only rejected add with specified side effects: a name conflict (route + method stay registered)
-                name_conflict = (k == 'addn' and op[2] in self.names and self.names[op[2]] != pat)
+                name_conflict = (k in ('addn', 'addnp') and op[2] in self.names and self.names[op[2]] != pat)
                 if not name_conflict:
                     return
                 if pat in self.routes and (fk_of(self.routes[pat]['ast']) != fk_of(ast) or any(m in self.routes[pat]['methods'] for m in methods)):
@@ -213,8 +219,8 @@ class Model:
             r = self.routes.setdefault(pat, {'rule': op[1], 'ast': ast, 'methods': {}})
             for method in methods:
                 r['methods'][method] = hid
-            if k == 'addn' and exp == 'accept':
-                self.names[op[2]] = pat
+            if k in ('addn', 'addnp', 'addno') and exp == 'accept':
+                self.names[op[2]] = pat          # (an overwriting registration moves the name)
             return
         if k == 'rm':
             pat = rr.pattern(self.U[op[1]])
@@ -298,6 +304,10 @@ def apply_real(app, op, log):
             app.route(op[1], 'GET', make_handler(app, 'G:' + op[1]))
         elif k == 'addn':
             app.route(op[1], 'PUT' if op[2] == 'n3' else 'POST', make_handler(app, 'P:' + op[1]), name=op[2])
+        elif k == 'addnp':
+            app.route(op[1], 'DELETE', make_handler(app, 'Q:' + op[1]), name=op[2])
+        elif k == 'addno':
+            app.route(op[1], 'POST', make_handler(app, 'R:' + op[1]), name=op[2], overwrite=True)
         elif k == 'addo':
             app.route(op[1], 'GET', make_handler(app, 'O:' + op[1]), overwrite=True)
         elif k == 'addm':
@@ -542,7 +552,7 @@ def _work(spec):
         exp, out = exps[-1], outcomes[-1]
         if exp == 'reject':
             c['rejected_ops'] += 1
-            side_effects = op[0] == 'addn'          # name conflict keeps route + method (reference decision)
+            side_effects = op[0] in ('addn', 'addnp')          # name conflict keeps route + method (reference decision)
             if out is None:
                 core.add_violation(res, {'kind': 'transition', 'hist': [list(o) for o in hist + (op,)], 'extra': a if kind == 'extra' else None, 'inuse': INUSE[0]},
                                    f'after {list(hist)!r} the operation {op!r} must be rejected, it was accepted', sig='accepted-bad-op')
@@ -614,7 +624,7 @@ def _replay(case):
     exp = exps[-1]
     if exp == 'reject' and out is None:
         return f'after {list(hist[:-1])!r} the operation {hist[-1]!r} must be rejected, it was accepted'
-    if exp == 'reject' and ka != kb and hist[-1][0] != 'addn' and fingerprint(app, rules) != fingerprint(build(om, hist[:-1])[0], rules):
+    if exp == 'reject' and ka != kb and hist[-1][0] not in ('addn', 'addnp') and fingerprint(app, rules) != fingerprint(build(om, hist[:-1])[0], rules):
         return f'after {list(hist[:-1])!r} the rejected operation {hist[-1]!r} ({out}) changed the router'
     if exp == 'accept' and out is not None:
         return f'after {list(hist[:-1])!r} the operation {hist[-1]!r} raised {out}'
